@@ -329,6 +329,15 @@ where
             RunResult::Err(_) => d.probe("swarm update refused unaligned collections"),
             _ => {}
         }
+    } else if matches!(case.fault, TFault::None | TFault::ExtremeDraw { .. }) && matches!(&report.result, RunResult::Err(e) if e.contains("::Evaluator<") && (e.contains("does not exist") || e.contains("is missing"))) {
+        // C06: the evaluator the caller registered is what every evaluation step of the run finds -
+        // a run that loses it on the way (it was there when the requirements were checked, or the
+        // check itself looked in the wrong place) fails although nothing was missing
+        if let RunResult::Err(e) = &report.result {
+            let short: String = e.chars().take(200).collect();
+            d.violate("C06", "registered-evaluator-lost", format!("{tname}: an evaluator was registered by the caller, yet the run failed with: {short}"));
+            d.violate("C16", format!("run-failed template={tname} kind=error"), format!("{tname}: run returned Err: {short}"));
+        }
     } else if case.kind == Kind::FailMutation {
         // the mutation's own validation error is the expected end of these runs
         match &report.result {
